@@ -103,10 +103,10 @@ impl Check for C15 {
         ]
     }
     fn cases(&self, tier: Tier) -> u64 {
-        tier.pick(3_000, 120_000)
+        tier.pick(6_000, 120_000)
     }
     fn min_nontrivial(&self, tier: Tier) -> u64 {
-        tier.pick(1_200, 40_000)
+        tier.pick(2_400, 40_000)
     }
     fn shard_budget(&self, tier: Tier) -> std::time::Duration {
         tier.pick(std::time::Duration::from_secs(150), std::time::Duration::from_secs(1800))
